@@ -23,7 +23,11 @@ def one(diff):
     res = {"diff": name, "aimed": notes.get(name, {}).get("property"), "what": notes.get(name, {}).get("what", "")[:100]}
     try:
         r = sh("git -C %s apply %s" % (wt, diff))
-        if r.returncode: res["error"] = "does not apply: " + r.stderr[:200]; return res
+        if r.returncode:
+            r = sh("git -C %s apply -3 %s" % (wt, diff))          # /repo has moved on (fix commits): try a 3-way merge
+            if r.returncode or sh("git -C %s diff --name-only --diff-filter=U" % wt).stdout.strip():
+                res["error"] = "does not apply: " + r.stderr[:200]; return res
+            res["ported"] = "3-way"
         touched = re.findall(r"^\+\+\+ b/(\S+)", open(diff).read(), flags=re.M)
         checks = set([res["aimed"]] if res["aimed"] else [])
         for t in touched:
